@@ -23,6 +23,9 @@ Decided clauses:
        position found, or through a reverse table that - for every byte value the success path admits (interval from the
        branch facts) - maps the byte to a position whose entry in the encoder's table is that byte. A byte outside the
        alphabet that decodes to some digit lets a corrupted parameter field verify and be reported as up to date.
+  R8.7 Argon2's variable-length hash H' (blake2b_long) uses a single BLAKE2b call exactly when one call can produce the output:
+       the arm that initialises the hash with the caller's outlen holds outlen <= crypto_generichash_blake2b_BYTES_MAX, the
+       chained arm (hash initialised with the constant BYTES_MAX) holds outlen >= BYTES_MAX + 1 (RFC 9106, 3.3: T <= 64).
 NOT decided: Argon2 / scrypt output values, string grammar strictness.
 """
 from .. import terms as T
@@ -383,6 +386,7 @@ def run(ctx, chk):
             chk.ob("R8.2w", fn, "wrapper returns the core's answer for the same (str, opslimit, memlimit) or -1", ok,
                    loc=fn.loc(p.end_iid), path=None if ok else p, key="R8.2w %s" % name)
     alphabet_rule(prog, chk)
+    hprime_rule(prog, chk)
 
 
 def _table_bytes(prog, fn, g):
@@ -514,3 +518,31 @@ def alphabet_rule(prog, chk):
         raise AnalysisBroken("R8.6: decode64_one succeeds through an idiom that is neither a search in the encoder's table nor a "
                              "range-guarded reverse table: cannot relate the decoder's alphabet to the encoder's")
     chk.floor("R8.6", "success paths of decode64_one", n, 1)
+
+
+def hprime_rule(prog, chk):
+    fn = prog.need("blake2b_long", rule="R8.7")
+    K = prog.K("crypto_generichash_blake2b_BYTES_MAX")
+    OUTLEN = ("arg", 1)
+    n = 0
+    for p in cm.paths(prog, fn):
+        inits = [e for e in p.calls("crypto_generichash_blake2b_init")]
+        if not inits:
+            continue
+        e = inits[0]
+        iv = p.facts_before(e.idx).interval(OUTLEN) or (0, (1 << 64) - 1)
+        n += 1
+        if e.args[3] == OUTLEN:
+            ok = iv[1] <= K
+            chk.ob("R8.7", fn, "single-call arm of H': outlen <= %d" % K, ok, loc=fn.loc(e.iid), path=None if ok else p,
+                   detail="" if ok else "outlen may be %d here" % iv[1], key="R8.7 blake2b_long direct")
+        elif e.args[3][0] == "c" and e.args[3][1] == K:
+            ok = iv[0] == K + 1
+            chk.ob("R8.7", fn, "chained arm of H': only for outlen >= %d" % (K + 1), ok, loc=fn.loc(e.iid), path=None if ok else p,
+                   detail="" if ok else "outlen can be as small as %d on the chained arm: an output of exactly %d bytes must come from one "
+                   "BLAKE2b call (RFC 9106), the chained construction gives a different second half" % (iv[0], iv[0]),
+                   key="R8.7 blake2b_long chained")
+        else:
+            chk.ob("R8.7", fn, "H' initialises BLAKE2b with outlen or with BYTES_MAX", False, loc=fn.loc(e.iid), path=p,
+                   key="R8.7 blake2b_long init-length")
+    chk.floor("R8.7", "paths of blake2b_long through a hash initialisation", n, 2)
